@@ -8,6 +8,7 @@ from guards import writable_tests
 from util import calls_to_fn, calls_named, aggregates_of, has_field, has_call, stores_to_field
 import c02
 import c09
+from core import renamed
 
 REGISTRY_LOCK = 'open_ro_txs'
 ALLOWED_MUTATORS = {'push', 'insert', 'remove', 'sort', 'sort_unstable', 'sort_by', 'sort_unstable_by', 'sort_by_key', 'sort_unstable_by_key',
@@ -488,6 +489,49 @@ def private_map(ctx, rule='C03.private-map'):
     return res
 
 
+def snapshot_fixed(ctx, rule='C03.snapshot-fixed'):
+    """what a transaction pins -- its header copy, root view, map and free-list copy (the fields of TxInner) -- is set when the transaction is built and replaced only by
+    the commit, which consumes the transaction: any other function that stores into those fields moves a live transaction (and every handle or byte slice borrowed
+    from it) to another snapshot"""
+    res = []
+    F = ctx.facts
+    try:
+        (commit_fn,) = ctx.need('Tx::commit')
+    except AnchorError as e:
+        return [unresolved(rule, str(e))]
+    if not (commit_fn.locals[1]['ty'].startswith('tx::Tx<') if commit_fn.argc >= 1 else False):
+        res.append(bad(rule, '%s | commit does not consume the transaction' % commit_fn.qual,
+                       'Tx::commit takes `%s`, not the transaction by value: handles borrowed from it survive a commit that replaces its snapshot' % commit_fn.locals[1]['ty'],
+                       where='%s:%d' % (commit_fn.file, commit_fn.line)))
+    allowed = set(F.reachable_fns([commit_fn]))
+    n = 0
+    for fn in sorted(F.fns, key=lambda f: f.path):
+        hits = []
+        for bb in sorted(fn.reachable_blocks()):
+            for si, st in enumerate(fn.blocks[bb]['stmts']):
+                if st['k'] != 'assign':
+                    continue
+                fs = [e for e in st['p']['pr'] if e['k'] == 'field']
+                if fs and fs[0].get('adt') and last_seg(fs[0]['adt']) == 'TxInner':
+                    hits.append((fn.loc(bb, si), '.'.join(str(e.get('name')) for e in fs)))
+        if not hits:
+            continue
+        n += len(hits)
+        root = fn
+        while root.kind == 'Closure' and root.owner is not None:
+            root = root.owner
+        if root in allowed:
+            res.append(ok(rule, '%s stores %s as part of the commit' % (fn.qual, ', '.join(sorted({h[1] for h in hits}))), sites=len(hits)))
+        else:
+            res.append(bad(rule, '%s | replaces the snapshot of a live transaction (%s)' % (fn.qual, ','.join(sorted({h[1] for h in hits}))),
+                           '%s stores TxInner.%s at %s outside the commit: the transaction -- and everything still borrowed from it -- is moved to another snapshot while '
+                           'it is open' % (fn.qual, hits[0][1], hits[0][0]), where=hits[0][0]))
+    f = floor(rule, 'stores into the fields of TxInner', n, 2)
+    if f:
+        res.append(f)
+    return res
+
+
 def run(ctx, tier):
     results = []
     results += release_bound(ctx)
@@ -496,6 +540,7 @@ def run(ctx, tier):
     results += sorted_registry(ctx)
     results += deregister_only_own(ctx)
     results += private_map(ctx)
+    results += snapshot_fixed(ctx)
     import c10
     results += c10.release_per_entry(ctx, rule='C03.release-per-entry')
     results += c10.blocking_registry(ctx, rule='C03.blocking-registry')
@@ -503,6 +548,10 @@ def run(ctx, tier):
     results += c02.pending_key(ctx, rule='C03.pending-key')
     import c06
     results += c06.shared_freelist(ctx, rule='C03.shared-freelist')
+    # pages a reader can still reach are never overwritten: data writes go only to pages the transaction allocated, and every view of a transaction hangs off its own header copy
+    results += renamed(c02.cow_write_set(ctx), 'C02', 'C03')
+    import c07
+    results += c07.single_root(ctx, rule='C03.single-root')
     return dict(
         results=results, stats=dict(ctx.stats),
         explanation=(
